@@ -14,7 +14,7 @@ func init() {
 	fw.Register(&fw.Check{
 		ID:    "C05",
 		Level: "fault_enumeration",
-		Rule: "base modules = every atom and generated module that both LLVM and the parser accept. Single-point naming faults are enumerated from the token stream of each base: every use of a global, local, type, comdat, metadata ID or attribute-group identifier (operands, callees, branch targets, phi predecessors, type uses, comdat uses, metadata uses in attachments/tuples/DI fields/named metadata, blockaddress operands, uselistorder targets) is redirected, one at a time, to a fresh undefined identifier of the same sigil, and every definition (global, function, type, comdat, metadata ID, local value, label) is duplicated, one at a time. 58 hand-written faults add the shapes the enumeration cannot reach (a block address taken in a declaration, label/value name clashes, undefined names inside switch/indirectbr/invoke/callbr/bundles/casts/allocas, duplicate comdats and metadata IDs, ...). A fault counts when LLVM rejects the faulted text; then asm.ParseString must return an error and no module, without panicking. " +
+		Rule: "base modules = every atom and generated module that both LLVM and the parser accept. Single-point naming faults are enumerated from the token stream of each base: every use of a global, local, type, comdat, metadata ID or attribute-group identifier (operands, callees, branch targets, phi predecessors, type uses, comdat uses, metadata uses in attachments/tuples/DI fields/named metadata, blockaddress operands, uselistorder targets) is redirected, one at a time, to a fresh undefined identifier of the same sigil, and every definition (global, function, type, comdat, metadata ID, local value, label) is duplicated, one at a time. About 100 hand-written faults add the shapes the enumeration cannot reach (a block address taken in a declaration, label/value name clashes, undefined names inside switch/indirectbr/invoke/callbr/bundles/casts/allocas/funclet terminators/use-list orders, duplicate comdats and metadata IDs, quoted-digit names next to IDs, references spelled with the empty quoted name, explicit %0 given twice, ...); every definition line is also removed, one at a time, after the intact base was parsed in the same process. A fault counts when LLVM rejects the faulted text; then asm.ParseString must return an error and no module, without panicking. " +
 			"non-trivial = a faulted input LLVM rejects; distinct by (base, site)",
 		Gen:           genC05,
 		MinNontrivial: 1000,
